@@ -85,3 +85,22 @@ Example C09_example :
   end.
 Proof. vm_compute. split; reflexivity. Qed.
 Print Assumptions C09_example.
+
+(** the recorded finding C09-filter-change-at-parse-start on the model (", a" with whitespace filtered): the wrapper
+    filter_with(drop ',' and blanks, maybe(one b)) consumes nothing, yet the sibling one(',') behind it fails - entered at a
+    parse start, the wrapper's filter change skipped the comma eagerly, and restoring the caller's filter does not bring it
+    back. Without the wrapper the same sibling succeeds. The filter itself IS restored (first sentence of the property). *)
+Theorem C09_filter_wrapper_at_parse_start_refuted :
+  let t := [Ch 1 1 13; Ch 1 1 6; Ch 1 1 1] in
+  match c_with_filter (c_new Plain t) (Some (FDrop [KWs])) with
+  | Ok lx =>
+    match run 10 (GRight (GFilterWith (FDrop [KComma; KWs]) (GMaybe (GOne KB))) (GOne KComma)) lx (ctx_new false) (mkstore [] []),
+          run 10 (GRight (GMaybe (GOne KB)) (GOne KComma)) lx (ctx_new false) (mkstore [] []),
+          run 10 (GFilterWith (FDrop [KComma; KWs]) (GMaybe (GOne KB))) lx (ctx_new false) (mkstore [] []) with
+    | (RErr _, _), (ROk _ _, _), (ROk _ lx', _) => c_filter lx' = Some (FDrop [KWs])
+    | _, _, _ => False
+    end
+  | _ => False
+  end.
+Proof. vm_compute. reflexivity. Qed.
+Print Assumptions C09_filter_wrapper_at_parse_start_refuted.
